@@ -66,6 +66,46 @@ pub fn replay(path: &str) -> i32 {
             }
             0
         }
+        "schedules" => {
+            // one recorded schedule of the emitted Go, re-run twice under the controlled scheduler, without the explorer
+            let src = source.clone().unwrap_or_default();
+            println!("--- source\n{}", src);
+            let path = scratch.single_path();
+            let comp = match compiler::pipeline::pipeline::compile(&path, &src) {
+                Ok(c) => c,
+                Err(e) => {
+                    println!("--- compile: rejected: {:?}", e.diagnostics().iter().map(|d| d.message().to_string()).collect::<Vec<_>>());
+                    return 0;
+                }
+            };
+            let go = comp.go.to_pretty(&comp.goenv, 120);
+            let gp = match crate::gosem::analyse(&go) {
+                crate::gosem::GoVerdict::Ok(p) => p,
+                other => {
+                    println!("--- emitted Go is not runnable: {:?}", other);
+                    return 1;
+                }
+            };
+            let sched: Vec<usize> = r["go_schedule_witness"].as_array().map(|a| a.iter().map(|x| x.as_u64().unwrap_or(0) as usize).collect()).unwrap_or_default();
+            let show = |res: &crate::gosem::run::RunResult| format!("{:?}/{:?}", String::from_utf8_lossy(&res.stdout), res.end);
+            let (a, ta, _) = crate::sched::go_side::run_with_schedule(gp.clone(), 200_000, &sched);
+            let (b, tb, _) = crate::sched::go_side::run_with_schedule(gp.clone(), 200_000, &sched);
+            println!("--- schedule {:?} ({} choice points): {}", sched, ta.len(), show(&a));
+            if show(&a) != show(&b) || ta.len() != tb.len() {
+                println!("machinery: the same schedule gave two observations: {}", show(&b));
+                return 2;
+            }
+            println!("--- outcomes of the reference semantics over all schedules (recorded): {}", r["ref_outcomes"]);
+            println!("--- outcomes of the emitted Go over all schedules (recorded): {}", r["go_outcomes"]);
+            let o = crate::oracle::obs_of_go(&a);
+            let key = format!("{:?}/{}", crate::families::common::lossy(&o.stdout), crate::families::common::end_tag(&o.end));
+            let in_ref = r["ref_outcomes"].as_array().map(|x| x.iter().any(|y| y.as_str() == Some(key.as_str()))).unwrap_or(false);
+            if !in_ref {
+                println!("REPRODUCED: {} is an observation of the emitted Go that no schedule of the source program has", key);
+                return 1;
+            }
+            0
+        }
         "project" | "determinism" => {
             let files: Vec<(String, String)> = r["files"].as_array().map(|a| a.iter().map(|f| (f[0].as_str().unwrap_or("").to_string(), f[1].as_str().unwrap_or("").to_string())).collect()).unwrap_or_default();
             let proj = crate::projects::Project { name: "replay".into(), files, expected_stdout: None };
